@@ -231,6 +231,8 @@ func vfC07(w *vfWorld) {
 	idp := w.StartIdP()
 	idp.IDTokenTTL, idp.AccessTTL = 100*time.Hour, 100*time.Hour
 	idp.AddUser(&vfUser{Name: "uni", Sub: "sub-üñí", Email: "uni+tag@example.com", EmailVerified: true, Groups: []string{"grp one", "b/c", "d=e"}, PreferredUsername: "Üni Code"})
+	// (a membership list with empty entries, as some directories deliver them: the empty ones carry nothing, the others all count)
+	idp.AddUser(&vfUser{Name: "gappy", Sub: "sub-gappy", Email: "gappy@example.com", EmailVerified: true, Groups: []string{"", "admins", "", "dev", ""}, PreferredUsername: "gappy"})
 	idp.AddUser(&vfUser{Name: "bare", Sub: "sub-bare", Email: "bare@example.com", EmailVerified: true, Groups: []string{}})
 	w.AddUpstream("up1.sim")
 	rep, err := w.NewReplica("R1", cfg)
@@ -257,7 +259,7 @@ func vfC07(w *vfWorld) {
 		path    string
 	}
 	var sources []*source
-	for _, user := range []string{"alice", "uni", "bare"} {
+	for _, user := range []string{"alice", "uni", "bare", "gappy"} {
 		b := w.NewBrowser("B"+user, "192.0.2.7:1")
 		_, cb := b.Login(rep, pp+"/start?rd=%2Fapp", user)
 		if cb == nil || cb.Status != 302 {
